@@ -33,6 +33,7 @@ type Ctx struct {
 	heapSortsM  map[string]string
 	globalFacts map[string]bool
 	boxDecl     map[string]bool
+	unfolded    map[string]bool
 }
 
 type specInst struct {
@@ -321,6 +322,9 @@ func (c *Ctx) rangeFact(term string, t types.Type) string {
 			lo, hi := intRange(t)
 			return fmt.Sprintf("(and (<= %s %s) (<= %s %s))", smtInt(lo), term, term, smtInt(hi))
 		}
+		if u.Info()&types.IsString != 0 {
+			return fmt.Sprintf("(<= (str.len %s) 4611686018427387904)", term)
+		}
 		return ""
 	case *types.Pointer, *types.Map, *types.Chan, *types.Signature:
 		return fmt.Sprintf("(>= %s 0)", term)
@@ -376,7 +380,10 @@ func (c *Ctx) typeID(t types.Type) int {
 }
 
 // preamble renders sorts and declarations.
-func (c *Ctx) preamble() string {
+func (c *Ctx) preamble() string { return c.preambleOpt(true) }
+
+// preambleOpt renders the declarations; it must not mutate c (obligations are rendered concurrently).
+func (c *Ctx) preambleOpt(withAxioms bool) string {
 	var sb strings.Builder
 	sb.WriteString("(declare-datatypes ((Slice 0)) (((mk-slice (s-ref Int) (s-off Int) (s-len Int) (s-cap Int)))))\n")
 	sb.WriteString("(declare-datatypes ((Iface 0)) (((mk-iface (if-tag Int) (if-val Int)))))\n")
@@ -393,8 +400,10 @@ func (c *Ctx) preamble() string {
 		sb.WriteString(d)
 		sb.WriteString("\n")
 	}
-	for _, a := range c.axioms {
-		sb.WriteString("(assert " + a + ")\n")
+	if withAxioms {
+		for _, a := range c.axioms {
+			sb.WriteString("(assert " + a + ")\n")
+		}
 	}
 	return sb.String()
 }
@@ -478,4 +487,24 @@ func smtString(s string) string {
 	}
 	sb.WriteByte('"')
 	return sb.String()
+}
+
+// uninterpreted reports whether the VC group contains symbols whose interpretation the solver
+// is free to choose (then a model's verdict on a postcondition cannot be replayed by comparing outputs).
+func (c *Ctx) uninterpreted() bool {
+	if c.fmode == "uf" || len(c.unfolded) > 0 {
+		return true
+	}
+	for k := range c.declared {
+		if strings.HasPrefix(k, "ext.") || strings.HasPrefix(k, "m.") || strings.HasPrefix(k, "bit.") || strings.HasPrefix(k, "i2f") || strings.HasPrefix(k, "box.") {
+			return true
+		}
+	}
+	for name, inst := range c.specDefined {
+		_ = inst
+		if sf := c.cs.Specs[name]; sf != nil && sf.Body == nil {
+			return true
+		}
+	}
+	return false
 }
